@@ -27,6 +27,6 @@ For EACH change deliver, in the directory {wt}-out/change1/ and {wt}-out/change2
   - patch.diff : `git diff` of the change against the worktree's HEAD (apply-able with `git apply`),
   - demo_test.go : a Go test (package dicescript, to be dropped into the library directory) or demo/main.go program that FAILS with the change applied and PASSES without it, demonstrating the property violation through the public API,
   - README.md : which clause of the property it breaks, what exactly it needs in order to manifest (input / sequence / configuration / interleaving), and the exact commands you ran with their outcome: build, existing tests passing with the change, demo failing with the change, demo passing without it.
-Between the two changes reset the worktree (`git -C {wt} checkout -- . && git -C {wt} clean -fd`) so that each patch is independent and against HEAD. Leave the worktree clean at the end (both patches only in the -out directory).
+Never use `git stash` (the stash is shared with other engineers' worktrees of this repository; use `git apply -R` or `git checkout -- .` instead). Between the two changes reset the worktree (`git -C {wt} checkout -- . && git -C {wt} clean -fd`) so that each patch is independent and against HEAD. Leave the worktree clean at the end (both patches only in the -out directory).
 
 Environment: no network; use `export GOFLAGS=-mod=mod GOPROXY=off GOSUMDB=off GOTOOLCHAIN=local`. The machine is shared and busy: keep runs small. Your final message: a short summary of the two changes (one paragraph each) and confirmation of the four outcomes for each.""")
